@@ -790,6 +790,61 @@ pub fn run_c07(opts: &Opts, out: &mut Emitter) {
             v
         });
     }
+    // query-shape sweep: an input block and a collateral block whose query states every subset of {address,
+    // min_amount, ref}, each part written as a literal or as a parameter, single and multi: whatever a stage or a
+    // reduction does to a pending query must not depend on which of its parts are there
+    {
+        use tx3_tir::model::core::Type;
+        for coll in [false, true] {
+            for many in [false, true] {
+                for shape in 0..27u32 {
+                    let (a, m, rf) = (shape % 3, (shape / 3) % 3, shape / 9);
+                    let q = tir::InputQuery {
+                        address: match a {
+                            0 => tir::Expression::None,
+                            1 => tir::Expression::Address(crate::tirgen::ADDR_A.to_vec()),
+                            _ => param("qa", Type::Address),
+                        },
+                        min_amount: match m {
+                            0 => tir::Expression::None,
+                            1 => ada(5),
+                            _ => tir::Expression::Assets(vec![tir::AssetExpr {
+                                policy: tir::Expression::None,
+                                asset_name: tir::Expression::None,
+                                amount: param("qm", Type::Int),
+                            }]),
+                        },
+                        r#ref: match rf {
+                            0 => tir::Expression::None,
+                            1 => tir::Expression::UtxoRefs(vec![tx3_tir::model::core::UtxoRef { txid: vec![7; 32], index: 1 }]),
+                            _ => param("qr", Type::UtxoRef),
+                        },
+                        many,
+                        collateral: coll,
+                    };
+                    let mut t = empty_tx();
+                    t.fees = fees_param();
+                    if coll {
+                        t.collateral.push(tir::Collateral { utxos: input_param("collateral", q) });
+                    } else {
+                        t.inputs.push(tir::Input { name: "in0".into(), utxos: input_param("in0", q.clone()), redeemer: tir::Expression::None });
+                        t.outputs.push(tir::Output {
+                            address: tir::Expression::None,
+                            datum: tir::Expression::None,
+                            amount: tir::Expression::EvalCoerce(Box::new(tir::Coerce::IntoAssets(input_param("in0", q)))),
+                            optional: false,
+                        });
+                    }
+                    let case = complete_case(&mut g, t);
+                    let thorough = opts.thorough;
+                    out.case("query-shape-sweep", || {
+                        let s = if thorough { None } else { Some(&mut sampler) };
+                        case_json(&case, observe(&case, true, s))
+                    });
+                }
+            }
+        }
+    }
     for k in 0..opts.n {
         g.param_rate = 2 + (k as u64 % 5);
         g.malformed = false;
